@@ -195,6 +195,14 @@ def _child_main(tool, argv, cwd, fault, knobs, logpath, count_deep):
     signal.alarm(int(knobs.get("alarm", 120)))
     gc.freeze()  # everything inherited from the parent is immortal here: later collections only see this run's objects
     os.chdir(cwd)
+    # temporary files of the tool and of multiprocessing (pymp-* directories of real DataLoader workers, which a hard
+    # kill never removes) live and die with the scenario's scratch directory
+    import tempfile
+
+    tmpd = os.path.join(cwd, ".tmp")
+    os.makedirs(tmpd, exist_ok=True)
+    os.environ["TMPDIR"] = tmpd
+    tempfile.tempdir = tmpd
     logfd = os.open(logpath, os.O_WRONLY | os.O_CREAT | os.O_TRUNC, 0o644)
     # keep third-party chatter (Kaldi logger, warnings) away from the check's stdout protocol
     errfd = os.open(os.path.join(cwd, "stderr.txt"), os.O_WRONLY | os.O_CREAT | os.O_APPEND, 0o644)
@@ -341,6 +349,8 @@ def run_tool_cold(tool, argv, cwd, hashseed, ambient=0, kill_after_saves=None):
     e["VERIF_PINNED"] = "1"
     e["OMP_NUM_THREADS"] = "1"
     e["PYTHONPATH"] = env.VERIF_DIR + os.pathsep + e.get("PYTHONPATH", "")
+    os.makedirs(os.path.join(cwd, ".tmp"), exist_ok=True)
+    e["TMPDIR"] = os.path.join(cwd, ".tmp")
     spec = {"tool": tool, "argv": list(argv), "cwd": cwd, "ambient": ambient, "kill_after_saves": kill_after_saves}
     with open(os.path.join(cwd, "stderr.txt"), "ab") as err:
         p = subprocess.run([sys.executable, "-m", "sim.clisim.cold", json.dumps(spec)], env=e, cwd=env.VERIF_DIR,
